@@ -42,7 +42,9 @@ Fixpoint zip_with {A B C} (f : A -> B -> C) (l1 : list A) (l2 : list B) : list C
   end.
 
 (* the `division` argument of _division_connected: a plain Python sequence or
-   an IntArray1D; of division_connected: additionally an IntArray2D *)
+   an IntArray1D (both are only indexed and iterated by the code as it is after
+   the fix of the primitive branch, so they behave alike); of
+   division_connected: additionally an IntArray2D *)
 Inductive seq_arg := SList (l : list expr) | SArr (l : list expr).
 Definition seq_data (s : seq_arg) : list expr := match s with SList l | SArr l => l end.
 Inductive division_arg := D1 (s : seq_arg) | D2 (h w : nat) (l : list expr).
